@@ -10,7 +10,7 @@ import (
 
 func init() {
 	register(&PropDef{
-		ID: "C14", Level: "exploration", Quick: 5000, Thorough: 500000, QuickCap: 100,
+		ID: "C14", Level: "exploration", Quick: 10000, Thorough: 500000, QuickCap: 100,
 		Rule:   "each run = one engine (disk: clean restarts and kill-images between requests), 1-40 requests over 2 parents x 3 table ids mixing CreateTable/DeleteTable/GetTable/ListTables, ModifyColumnFamilies with 1-3 modifications (create/update/drop, failing at position k, drop then re-create), DropRowRange (prefix equal to a key, ending in 0xff, matching nothing; all rows) and data requests; after every request the touched rows, and at a drawn frequency every table's schema and rows, are compared with the registry model; distinct = hash of (engine, op shapes); non-trivial = at least 2 requests. A quarter of the runs are concurrent: 2-3 client tasks x 1-4 requests (create, delete, get, list, add/drop a family, mutate, read, drop a prefix, drop all rows) on ONE table name under the seeded scheduler, the history checked with porcupine against a registry model (AlreadyExists / NotFound / fresh table after re-creation / purged family) while an untouched table must stay listed and intact",
 		Real:   []string{"bttest admin handlers (CreateTable, DeleteTable, GetTable, ListTables, ModifyColumnFamilies, DropRowRange)", "data handlers", "all three engines; start-up recovery on disk restarts"},
 		Stub:   []string{"gRPC transport (direct calls)", "process kill = directory image between requests"},
